@@ -18,7 +18,8 @@ TRUSTED = [
 
 def to_coq(c, o):
     if "exc" in o:
-        raise core.HarnessError(f"grammar driver raised: {o}")
+        # the whole case failed inside the implementation (e.g. it did not return): an observable, not a harness error
+        return f"KGram {grammars.c_decl(c['decl'])} [PErr {core.cerr(o['exc'])}]"
     obs = clist(gc.c_pyres_gobs(x) for x in o["ok"]["extractions"])
     return f"KGram {grammars.c_decl(c['decl'])} {obs}"
 
